@@ -31,13 +31,16 @@ def lock_order_facts():
 
 def gen(rng, path):
     nt = rng.range(2, 4)
-    ndb = rng.range(1, 2)
-    lines = ["cfg %s %d %d" % (path, rng.below(2), ndb)]
-    prog = []
+    ndb = 3                      # database 0 exists before the threads start; 1 and 2 are opened/created concurrently
+    lines = ["cfg %s %d 1" % (path, rng.below(2))]
     for t in range(nt):
+        opened = {0}
         for _ in range(rng.range(2, 5)):
-            kind = rng.weighted([("put", 5), ("get", 4), ("del", 3), ("scan", 2), ("sync", 1), ("checkpoint", 1)])
-            d = rng.below(ndb)
+            kind = rng.weighted([("put", 5), ("get", 4), ("del", 3), ("scan", 2), ("sync", 1), ("checkpoint", 1), ("hold", 1)])
+            d = rng.weighted([(0, 3), (1, 3), (2, 1)])
+            if kind not in ("sync", "checkpoint") and d not in opened:
+                lines.append("t %d opendb %d" % (t, d))
+                opened.add(d)
             k = rng.choice(KEYS)
             if kind == "put":
                 v = rng.bytes(rng.choice([1, 4, 300, 2000]))
@@ -46,6 +49,8 @@ def gen(rng, path):
                 lines.append("t %d %s %d %s" % (t, kind, d, k.hex()))
             elif kind == "scan":
                 lines.append("t %d scan %d" % (t, d))
+            elif kind == "hold":
+                lines.append("t %d hold %d %02x" % (t, d, rng.choice([2, 10, 40])))
             else:
                 lines.append("t %d %s" % (t, kind))
     lines.append("run")
@@ -55,7 +60,7 @@ def gen(rng, path):
 def apply(state, op):
     """sequential reference semantics: returns (expected answer, new state); state = tuple of frozen dict items per db"""
     kind = op["kind"]
-    if kind in ("sync", "checkpoint"):
+    if kind in ("sync", "checkpoint", "opendb", "hold"):
         return "OK", state
     d = op["db"]
     db = dict(state[d])
@@ -202,7 +207,7 @@ def replay(run, path):
     work = tempfile.mkdtemp(prefix="iwkv-C07r-")
     lines = list(r["scenario"])
     f = lines[0].split(); f[1] = os.path.join(work, "r.db"); lines[0] = " ".join(f)
-    ndb = int(f[3])
+    ndb = 3
     bad = 0
     for _ in range(20):
         for suf in ("", "-wal"):
